@@ -82,3 +82,51 @@ PROFILES += [
 ]
 
 FILES["CodeNodeText"] = {"imports": ["FlVerif.Op.PyExtFunEval"]}
+
+# ---------------------------------------------------------------- the texts of a loaded antecedent (rule.py)
+EXPR = "Py.Load.Expression"
+PROP_STR = "(Py.Load.Expression.asProp node >>= fun p => Proposition_str.run p {{}} >>= fun r => Py.deref r.ret)"
+
+
+def antecedent_text(method):
+    """`Antecedent.prefix / infix / postfix (self, node=None)` on the tree of `Antecedent.load`; `expression` = `self.expression`"""
+    return {
+        "name": f"Antecedent_{method}", "module": "fuzzylite.rule", "object": f"Antecedent.{method}", "file": "CodeAntecedentText",
+        "params": [("expression", EXPR), ("node", EXPR)],
+        "rec_fixed": ["expression"], "self_call": f"self.{method}(_0)", "self_call_params": ["node"],
+        "rec_fuel": "Py.W5Z.depth expression + Py.W5Z.depth node + 1",
+        "locals": {"result": "List String"}, "ret": "String",
+        # `Expression` objects define neither `__bool__` nor `__len__`: only `None` is false
+        "truthy": {EXPR: "({0} != Py.Load.Expression.none)"},
+        "externals": [
+            ("self.expression", "expression", EXPR, True),
+            ("isinstance(node, Proposition)", "(Py.W5Z.isProp node)", "Bool", True),
+            ("isinstance(node, Operator)", "(Py.W5Z.isOp node)", "Bool", True),
+            # `str(node)` after the `isinstance` test: `Proposition.__str__`, translated first
+            ("str(node)", PROP_STR, "String", False),
+            ("node.left", "(Py.W5Z.leftOf node)", EXPR, False),
+            ("node.right", "(Py.W5Z.rightOf node)", EXPR, False),
+            ("node.name", "(Py.W5Z.nameOf node)", "String", False),
+            ("' '.join(_0)", "(Py.joinSp {0})", "String", True, ["List String"]),
+        ],
+    }
+
+
+PROFILES += [
+    {
+        # a hedge / term object is its name (as in the loaders); `self.variable` of a loaded proposition is set
+        "name": "Proposition_str", "module": "fuzzylite.rule", "object": "Proposition.__str__", "file": "CodeAntecedentText",
+        "params": [("p", "Py.Load.Proposition")],
+        "locals": {"result": "List String", "hedge": "String"}, "ret": "String",
+        "externals": [
+            ("self.variable", "(some p.variable_)", "Option Op.VarInfo", True),
+            ("self.hedges", "p.hedges", "List String", True),
+            ("self.term", "p.term_", "Option String", True),
+            ("_0.name", "{0}.name", "String", True, ["Op.VarInfo"]),
+            ("_0.name", "{0}", "String", True, ["String"]),
+            ("' '.join(_0)", "(Py.joinSp {0})", "String", True, ["List String"]),
+        ],
+    },
+    antecedent_text("prefix"), antecedent_text("infix"), antecedent_text("postfix"),
+]
+FILES["CodeAntecedentText"] = {"imports": ["FlVerif.Op.PyExtWave5ZRule"]}
